@@ -21,6 +21,7 @@ RULE = ("every composition (n+,n-,n0) with N <= Nmax (quick 24, thorough 40), ea
         "hundred residues; distinct = distinct composition; non-trivial = at least one charged residue and N >= 5")
 RULE += ("; added after the mutation rounds: one presentation already segregated (block / few neutrals / block), kappa or other legal queries before delta-max on some presentations, permutant asked after the value on one object; composition (1000,136,0) in the thorough tier; the first cases of every shard are judged again at its end")
 RULE += ("; round 5: a few residues of one sign in front of a block of 10-170 of the other with 0-40 neutrals")
+RULE += ("; round 8: minority blocks of 4-10 residues in majority runs 5-12 times longer; compositions (43,6,0), (30,0,18), (27,0,18)")
 EXHAUSTIVE = {"quick": False, "thorough": False}
 EXHAUSTIVE_NOTE = {"quick": "all compositions with N <= 24 (2,924)", "thorough": "all compositions with N <= 40 (12,340)"}
 ASSUMPTIONS = [
